@@ -110,7 +110,11 @@ func (inst *Instance) ImportKeystore(src *WalletState, js string, solo bool) (*W
 //go:norace
 func (inst *Instance) StopAsync() *G {
 	inst.StopRequested = true
-	return inst.Call(RoleStopper, "Stop", func() { inst.WM.Stop() })
+	return inst.Call(RoleStopper, "Stop", func() {
+		inst.startSeen.Lock()
+		inst.startSeen.Unlock()
+		inst.WM.Stop()
+	})
 }
 
 // SyncIssued extends the harness's list of issued addresses of an imported
